@@ -165,6 +165,21 @@ func runC10(c *vkit.Ctx, lab *Lab, r *rand.Rand, i int) {
 	lc.Run, lc.Count = "", 1
 	lc.Sort = r.IntN(3) != 0
 	lc.Scenario.CleanSort = lc.Sort
+	noFile := 0
+	if i%8 == 5 {
+		// a table test with one snapshot file per case: more files than the process may hold
+		// open at once (the limit is an everyday one scaled down: 64 descriptors, 80-120 files).
+		// Clean works through them one at a time, so the limit must not matter.
+		t0 := lc.Tests[0]
+		m := 80 + r.IntN(41)
+		for k := 0; k < m; k++ {
+			lc.Scenario.Nodes[t0].Calls = append(lc.Scenario.Nodes[t0].Calls,
+				Call{API: "snap", Dir: lab.AbsDir, File: fmt.Sprintf("case_%03d", k), Val: fmt.Sprintf("table case %d", k)})
+		}
+		noFile = 64
+		lc.Classes["more-snapshot-files-than-the-descriptor-limit"] = true
+		c.Count("cases_with_more_files_than_descriptors", 1)
+	}
 	rec, ok := lab.record(c, lc)
 	if !ok {
 		c.Count("premise_record_failed", 1)
@@ -200,7 +215,7 @@ func runC10(c *vkit.Ctx, lab *Lab, r *rand.Rand, i int) {
 				os.WriteFile(f, []byte(vkit.RenderSnapFile(ents)), 0o644)
 			}
 		}
-		res := lab.P.RunChild(RunOpt{PkgDir: lab.PkgDir, Scenario: lc.Scenario, Update: lc.Update})
+		res := lab.P.RunChild(RunOpt{PkgDir: lab.PkgDir, Scenario: lc.Scenario, Update: lc.Update, NoFile: noFile})
 		if !res.Complete {
 			c.Violate("clean-did-not-complete", "", fmt.Sprintf("child died: %v %s", res.Err, res.Stderr), in)
 			return
@@ -292,7 +307,7 @@ func runC10(c *vkit.Ctx, lab *Lab, r *rand.Rand, i int) {
 			}
 		}
 		// second process: Clean again changes nothing
-		res2 := lab.P.RunChild(RunOpt{PkgDir: lab.PkgDir, Scenario: lc.Scenario, Update: lc.Update})
+		res2 := lab.P.RunChild(RunOpt{PkgDir: lab.PkgDir, Scenario: lc.Scenario, Update: lc.Update, NoFile: noFile})
 		if res2.Complete {
 			for root, pre := range res2.Pre {
 				if d := pre.Diff(res2.Post[root], false); len(d) > 0 {
